@@ -307,6 +307,14 @@ func (c *updater) buildBackendAuthHTTP(d *backData) {
 		}
 		listName := strings.Replace(secretName, "/", "_", 1)
 		userlist := c.haproxy.Userlists().Find(listName)
+		if userlist != nil && !strings.HasPrefix(secretName, authSecret.Source.Namespace+"/") &&
+			!c.options.DynamicConfig.CrossNamespaceSecretPasswd {
+			// an userlist already built for its own namespace
+			// cannot be reused from another one without permission
+			c.logger.Error("error reading basic authentication on %v: trying to read secret '%s' cross namespaces, but cross-namespace reading is disabled",
+				authSecret.Source, secretName)
+			continue
+		}
 		if userlist == nil {
 			userb, err := c.cache.GetPasswdSecretContent(
 				authSecret.Source.Namespace,
@@ -836,11 +844,13 @@ func (c *updater) buildBackendProtocol(d *backData) {
 	}
 	if crt := d.mapper.Get(ingtypes.BackSecureCrtSecret); crt.Value != "" {
 		var crtFile convtypes.CrtFile
-		namespace, name, err := crt.NamespacedName()
+		// the cache should read on behalf of the namespace of the source,
+		// which is the one that validates a cross namespace reference
+		_, _, err := crt.NamespacedName()
 		if err == nil {
 			crtFile, err = c.cache.GetTLSSecretPath(
-				namespace,
-				name,
+				sourceNamespace(crt),
+				crt.Value,
 				[]convtypes.TrackingRef{{Context: convtypes.ResourceHABackend, UniqueName: d.backend.ID}},
 			)
 		}
@@ -874,11 +884,11 @@ func (c *updater) buildBackendProtocol(d *backData) {
 	}
 	if ca := d.mapper.Get(ingtypes.BackSecureVerifyCASecret); ca.Value != "" {
 		var caFile, crlFile convtypes.File
-		namespace, name, err := ca.NamespacedName()
+		_, _, err := ca.NamespacedName()
 		if err == nil {
 			caFile, crlFile, err = c.cache.GetCASecretPath(
-				namespace,
-				name,
+				sourceNamespace(ca),
+				ca.Value,
 				[]convtypes.TrackingRef{{Context: convtypes.ResourceHABackend, UniqueName: d.backend.ID}},
 			)
 		}
@@ -891,6 +901,13 @@ func (c *updater) buildBackendProtocol(d *backData) {
 			c.logger.Warn("skipping CA on %s: %v", ca.Source.String(), err)
 		}
 	}
+}
+
+func sourceNamespace(cv *ConfigValue) string {
+	if cv.Source != nil {
+		return cv.Source.Namespace
+	}
+	return ""
 }
 
 func (c *updater) buildBackendProxyProtocol(d *backData) {
